@@ -55,7 +55,7 @@ Print Assumptions C19_all_messages.
    printed form of another parses to the messages of the first followed by the
    messages of the second, each exactly as parsed alone, with no diagnostics —
    lexer, parser and printer models composed (C04_print_parse) *)
-Theorem C19_concat_printed : forall alnum floats fl ms1 ms2, Forall (msg_good alnum) ms1 -> Forall (msg_good alnum) ms2 ->
+Theorem C19_concat_printed : forall alnum floats fl ms1 ms2, Forall (msg_good alnum floats fl) ms1 -> Forall (msg_good alnum floats fl) ms2 ->
   r_msgs (sml_parse alnum floats (msgs_text fl ms1 ++ msgs_text fl ms2)) =
     r_msgs (sml_parse alnum floats (msgs_text fl ms1)) ++ r_msgs (sml_parse alnum floats (msgs_text fl ms2)) /\
   r_errs (sml_parse alnum floats (msgs_text fl ms1 ++ msgs_text fl ms2)) = [] /\
